@@ -123,6 +123,9 @@ class Deduping(DNAGenerator):
       attempts += 1
     if attempts == self.max_proposal_attempts:
       raise StopIteration()
+    # Ordinal of this DNA among the proposals of the inner generator, so that
+    # the rejected ones can be accounted for in `recover`.
+    dna.set_metadata('dedup_inner_ordinal', self.generator.num_proposals)
     if not self.needs_feedback:
       self._add_dna_to_cache(dna, None)
     return dna
@@ -134,7 +137,15 @@ class Deduping(DNAGenerator):
   def recover(self, history) -> None:
     """Recovers the inner generator through its own `recover`, then the cache."""
     history = list(history)
-    self.generator.recover(history)
+    inner_history = []
+    consumed = self.generator.num_proposals
+    for dna, reward in history:
+      ordinal = dna.metadata.get('dedup_inner_ordinal', consumed + 1)
+      # Stand-ins for the proposals that were rejected before this one.
+      inner_history.extend([(dna, None)] * (ordinal - consumed - 1))
+      inner_history.append((dna, reward))
+      consumed = ordinal
+    self.generator.recover(inner_history)
     super().recover(history)
 
   def _replay(self, trial_id: int, dna: DNA, reward: Any) -> None:
